@@ -13,7 +13,7 @@ import time
 VERIF = os.path.dirname(os.path.dirname(os.path.abspath(__file__)))
 EXTRA = {"a5b8de8": ["C03"], "1ca83d3": ["C01", "C02", "C06"], "2f2aa3d": ["C02", "C06", "C04"], "b3cde75": ["C01", "C06", "C18"], "a13e0ce": ["C08"], "64c3e35": ["C14", "C17"],
          "55e6e16": ["C15", "C10"], "90809bb": ["C11", "C02"], "8a4355f": ["C13", "C12"], "182a61c": ["C07", "C13"], "2b665a1": ["C20", "C13"], "4e7ae19": ["C16"],
-         "fa6706a": []}
+         "fa6706a": [], "cb6fa11": ["C11"], "4edbc7f": ["C17"], "4fdf95b": ["C01", "C06"], "bd52845": ["C07", "C10"], "231f8cb": ["C12"], "26a04a4": ["C11", "C02"]}
 
 
 def sh(cmd, cwd=None, env=None, timeout=3600):
